@@ -144,19 +144,20 @@ def _interior(ty):
                            'global state or interior mutability would let a function the rules call read-only change a replica'
                         for p in PROPS}, floor=2, family='COVER')
 def alias_precond(ctx):
-    """The crate has no user-written unsafe block / fn, no static, and no field of an interior-mutability or raw-pointer
+    """The crate has no user-written unsafe block / fn, no `static mut` or interior-mutable static, and no field of an interior-mutability or raw-pointer
     type: mutation is visible to the effect analysis as a `&mut` borrow."""
     facts = ctx.facts
     if facts.escapes is None:
         ctx.shape('escapes', None, 'the fact file carries no unsafe/static list (old driver?)')
         return
-    for e in facts.escapes:
+    esc = [e for e in facts.escapes if not (e['kind'] == 'static' and e.get('freeze'))]   # an immutable static of plain data is a constant
+    for e in esc:
         ctx.fail('%s/%s' % (e['kind'], e['in'].replace('crdts::', '')), None,
                  '%s in %s (%s:%s): state can change outside the `&mut` paths the effect analysis follows%s'
                  % (e['kind'], e['in'], e['file'], e['line'], (' (type %s)' % e['ty']) if e.get('ty') else ''),
                  line=e['line'], fnkey=e['in'])
-    ctx.check(not facts.escapes, 'unsafe-static', None, 'no user-written unsafe block or fn and no static in %d bodies' % len(facts.bodies),
-              '%d unsafe / static constructs' % len(facts.escapes))
+    ctx.check(not esc, 'unsafe-static', None, 'no user-written unsafe block or fn and no mutable or interior-mutable static in %d bodies'
+              % len(facts.bodies), '%d unsafe / static constructs' % len(esc))
     nf, bad = 0, 0
     for path, adt in sorted(facts.adts.items()):
         if not path.startswith('crdts::'):
